@@ -17,6 +17,7 @@ VARS = {
     "m": ("map", [(SK("a"), ("int",)), (SK("b"), ("int",))]),
     "ms": ("map", [(SK("a"), ("string", 1))]),
     "mi": ("map", [({"t": "int", "v": 1}, ("int",)), ({"t": "int", "v": 2}, ("int",))]),
+    "m2": ("map", [(SK("a"), ("int",)), (SK("c"), ("int",))]),
     "n": ("null",),
     # time values are concrete here (the calendar model is C11's subject); 2009-02-13T23:31:30Z and 2021-03-04T05:06:07.5Z
     "t1": ("const", {"t": "timestamp", "us": 1234567890000000}), "t2": ("const", {"t": "timestamp", "us": 1614834367500000}),
@@ -24,7 +25,7 @@ VARS = {
 }
 TYPE_OF = {"i1": "int", "i2": "int", "u1": "uint", "u2": "uint", "d1": "double", "d2": "double", "b1": "bool", "b2": "bool",
            "s1": "string", "s2": "string", "s0": "string", "y1": "bytes", "y2": "bytes", "li": "list", "li3": "list", "le": "list",
-           "ls": "list", "lb": "list", "ld": "list", "m": "map", "ms": "map", "mi": "map", "n": "null_type",
+           "ls": "list", "lb": "list", "ld": "list", "m": "map", "ms": "map", "mi": "map", "m2": "map", "n": "null_type",
            "t1": "timestamp", "t2": "timestamp", "q1": "duration", "q2": "duration"}
 
 # leaves by CEL type (expression text)
@@ -84,6 +85,11 @@ FORMS = [
     ("bool", "{0}.exists(x, 10 / x > 0)", ["list<int>"]), ("bool", "lb.all(x, x)", []), ("bool", "lb.exists(x, x)", []),
     ("list<int>", "{0}.map(x, [x].map(y, y + x)[0])", ["list<int>"]),
     ("bool", "{0}.exists(x, {0}.all(y, y <= x))", ["list<int>"]),
+    # macros over maps iterate the keys
+    ("list<string>", "m.filter(k, m[k] > {0})", ["int"]), ("list<string>", "m.filter(k, true)", []), ("list<int>", "m.map(k, m[k] + {0})", ["int"]),
+    ("list<string>", "m.map(k, k + {0})", ["string"]), ("bool", "m.all(k, m[k] >= {0})", ["int"]), ("bool", "m.exists(k, k == {0})", ["string"]),
+    ("bool", "m.exists_one(k, m[k] == {0})", ["int"]), ("list<int>", "mi.filter(k, k > {0})", ["int"]), ("list<int>", "{0}.filter(x, true)", ["list<int>"]),
+    ("list<int>", "{0}.filter(x, false)", ["list<int>"]), ("list<int>", "[].filter(x, true)", []), ("list<int>", "{{}}.filter(x, true)", []),
     # conversions
     ("int", "int({0})", ["uint"]), ("int", "int({0})", ["double"]), ("int", "int({0})", ["int"]),
     ("uint", "uint({0})", ["int"]), ("uint", "uint({0})", ["double"]), ("uint", "uint({0})", ["uint"]),
@@ -209,7 +215,7 @@ def vars_in(src):
 
 
 # ----------------------------------------------------------------------------- ill-typed skeletons (C04)
-KIND_LEAF = {"int": "i1", "uint": "u1", "double": "d1", "bool": "b1", "string": "s1", "bytes": "y1", "list": "li",
+KIND_LEAF = {"map2": "m2", "int": "i1", "uint": "u1", "double": "d1", "bool": "b1", "string": "s1", "bytes": "y1", "list": "li",
              "map": "m", "null": "n", "elist": "le", "estr": "s0", "type": "int"}
 UNARY_CTX = ["-{0}", "!{0}", "size({0})", "{0}.size()", "{0}[0]", "{0}[-1]", "{0}.a", "has({0}.a)", "{0}['a']", "{0}[1u]", "{0}[true]",
              "{0}.map(x, x)", "{0}.filter(x, true)", "{0}.all(x, true)", "{0}.exists(x, x)", "{0}.exists_one(x, x == 1)",
@@ -244,7 +250,8 @@ def illtyped(tier):
                 seen.add(src)
                 yield src
     # special values reachable only through data
-    for src in ["int(d1 / d2)", "uint(d1 * d2)", "int(d1)", "uint(d1)", "li[i1]", "li3[i1 - i2]", "m[s1]", "mi[i1]", "i1 / i2 % i1",
+    for src in ["m == m2", "m != m2", "[m] == [m2]", "m in [m2]", "{'k': m} == {'k': m2}", "(m == m2) || true", "mi == m", "m == {'a': 1, 'z': 2}",
+                "int(d1 / d2)", "uint(d1 * d2)", "int(d1)", "uint(d1)", "li[i1]", "li3[i1 - i2]", "m[s1]", "mi[i1]", "i1 / i2 % i1",
                 "string(i1) + s1", "[i1, i2][i1 % 2]", "{s1: i1, s2: i2}", "{i1: 1, i2: 2}[i1]", "{i1: 1, i2: 2}", "li.map(x, x / i1)",
                 "li.exists(x, li[x] > 0)", "li3.filter(x, li3[x] > x)", "duration(string(i1) + 's')", "double(s1)", "int(s2)",
                 "bytes(s1)[0]", "string(y1)", "string(y2)", "y1 + bytes(s1)", "b1 ? li[i1] : m[s1]", "[li, li3][i1][i2]",
